@@ -78,4 +78,9 @@ CLAIMED['C05'] = {
     'text': 'Extrema are proved to be exactly the strict interior maxima/minima (the strict comparator and order 1 are call-site obligations); padding is proved to keep the detected extrema, order everything strictly, add only outside, cover both record ends and terminate; every envelope is proved to have one value per sample equal to the interpolant at that sample\'s integer time, with and without parabolic refinement. That the scipy interpolants pass through their knots is assumed / bounded.',
     'note': PROOF_NOTE + 'argrelextrema, np.pad (default modes) and the scipy interpolants are assumed contracts; custom np.pad options bounded only.',
 }
+CLAIMED['C07'] = {
+    'technique': 'deductive: postcondition of get_next_imf_mask (documented sinusoidal masks, mean over phases of extraction minus the same mask, any-flag, zero-amplitude lemma, pool size, no random/global reads) for enumerated phase counts; get_mask_freqs; mask_sift frequency ladder and amplitude-mode obligations at the masked-extraction call for an arbitrary layer; VCs from the real source discharged by z3; bounded stand-in: executable masking rule over phases x frequencies x amplitudes, recomputed mask_sift layers, byte-identical results for nprocesses 1..3/8',
+    'text': 'For every signal, mask frequency and amplitude (phase count enumerated) the masked IMF is proved to be the documented average; zero amplitude reduces to unmasked extraction; the mask frequency of layer k and its amplitude are proved to follow the ladder / the selected amplitude mode; schedule independence follows from purity (proved: nothing random or global is read) under the assumed order-preserving starmap contract.',
+    'note': PROOF_NOTE + 'cos uninterpreted; Pool.starmap contract assumed (OS scheduling is inside that assumption); std is an uninterpreted function of the vector.',
+}
 PENDING_REASON = {}
